@@ -1,7 +1,9 @@
-"""C15 — serialisation customisation is scoped and faithful: pickle part (E2, M6) + pickler-at-submit on the real executor (E1 oracle)"""
+"""C15 — serialisation customisation is scoped and faithful: pickle part (E2, M6) + the reusable executor carries the
+reducers of the request it is returned for (E3, real workers, M6) + pickler-at-submit on the real executor (E1 oracle)"""
 from ..composite import Composite
 from ..e1 import E1Part
 from .C15_pickle import PART
+from .C15_reuse import PART as REUSE
 
 E1 = E1Part("C15", [("pickler", 1)], ["C15"], [], quick=500, thorough=10000, lockstep_on=False)
-PROP = Composite("C15", [PART, E1])
+PROP = Composite("C15", [PART, REUSE, E1])
